@@ -35,7 +35,7 @@ CHECKS = {
 CHECKS['C15'] = (
     'exhaustive enumeration of amplifier-band profile assignments to the OMS of micro topologies + of bitmap-extent sets '
     'for align_grids, against an independent band-intersection / graph-walk model',
-    'Every assignment (quick: deviation-bounded, thorough: full product on P2/P3) of 8 amplifier band profiles to the OMS '
+    'Every assignment (quick: deviation-bounded, thorough: full product on P2/P3) of 9 amplifier band profiles to the OMS '
     'of P2/P3/triangle networks is designed with the real designed_network and passed to build_oms_list; partition, '
     'ROADM-to-ROADM runs, mutual reverse pairing, common slot range and the exact FREE/UNUSABLE set are compared with an '
     'independent model. align_grids is run on every 2-/3-set of bitmaps over a grid of extents with pre-existing marks.',
